@@ -133,6 +133,10 @@ func (obj *Vector) Push(values ...Object) (index int) {
 // vector is shortened by one.
 func (obj *Vector) Pop() (element Object) {
 	if 0 <= obj.FillPtr {
+		if len(obj.elements) < obj.FillPtr {
+			// A fill-pointer beyond the elements, there is nothing there.
+			obj.FillPtr = len(obj.elements)
+		}
 		if 0 < obj.FillPtr {
 			obj.FillPtr--
 			element = obj.elements[obj.FillPtr]
